@@ -7,10 +7,12 @@ from .sym import Sym, K, real, Engine, NaNMarker, NAN, node_of, f_and, f_or, cmp
 
 
 class Ang:
-    __slots__ = ("c", "s")
+    __slots__ = ("c", "s", "rng")
 
-    def __init__(self, c, s):
-        self.c, self.s = c, s
+    def __init__(self, c, s, rng=None):
+        # rng: optional open interval (lo, hi) in which the harness declares the real representative of the angle to lie
+        # (needed only by code that compares an angle with a constant, e.g. `phi < 0`); arithmetic results carry no range
+        self.c, self.s, self.rng = c, s, rng
 
     def __repr__(self):
         return f"Ang<cos={self.c!r}, sin={self.s!r}>"
@@ -32,10 +34,11 @@ class Ang:
         if isinstance(u, NaNMarker):
             return NAN
         u = u if isinstance(u, Sym) else K(u)
+        import math
         if u.n.op == "const":
             sg = (1 - u * u)
-            return Ang(u, sg.sqrt())
-        return Ang(u, (1 - u * u).sqrt())
+            return Ang(u, sg.sqrt(), (0.0, math.pi))
+        return Ang(u, (1 - u * u).sqrt(), (0.0, math.pi))
 
     @staticmethod
     def from_xy(x, y):
@@ -89,6 +92,14 @@ class Ang:
             return Ang(self.c * o.c - self.s * o.s, self.s * o.c + self.c * o.s)
         if isinstance(o, (int, float)) and o == 0:
             return self
+        q = _pi_multiple_of(o)
+        if q is not None and q.denominator <= 2:
+            # angle + k*pi/2: exact rotation
+            k = int(q * 2) % 4
+            c, s_ = self.c, self.s
+            for _ in range(k):
+                c, s_ = -s_, c
+            return Ang(c, s_)
         raise NotEncodable("angle plus a non-angle")
 
     __radd__ = __add__
@@ -111,11 +122,56 @@ class Ang:
     def _cmp(self, o):
         raise NotEncodable("ordering comparison of angles")
 
+    def _const(self, o):
+        import mpmath
+        try:
+            n = node_of(o if isinstance(o, Sym) else K(o))
+            if dag.has_free(n):
+                return None
+            return float(dag.evalf(n, {}, mpmath.mp))
+        except Exception:
+            return None
+
+    def __lt__(self, o):
+        v = self._const(o)
+        if self.rng is not None and v is not None:
+            if self.rng[1] <= v:
+                return True
+            if self.rng[0] >= v:
+                return False
+        raise NotEncodable("ordering comparison of an angle whose range is not declared")
+
+    def __gt__(self, o):
+        v = self._const(o)
+        if self.rng is not None and v is not None:
+            if self.rng[0] >= v:
+                return True
+            if self.rng[1] <= v:
+                return False
+        raise NotEncodable("ordering comparison of an angle whose range is not declared")
+
     def __abs__(self):
         """|phi| for a polar angle in [0, pi] is phi itself; only used in `np.abs(phi) < eps` tests"""
         return AbsAng(self)
 
     __hash__ = None
+
+
+def _pi_multiple_of(o):
+    """q if o == q*pi exactly (Sym constant or float), else None"""
+    try:
+        if isinstance(o, Sym):
+            c = dag.cval(o.n) if o.n.op == "const" else None
+            if isinstance(c, dag.QS) and list(c.t) == [(1, -2)]:
+                return Fraction(c.t[(1, -2)])
+            return None
+        if isinstance(o, (float, np.floating)):
+            import math
+            q = Fraction(float(o) / math.pi).limit_denominator(4)
+            return q if abs(float(q) * math.pi - float(o)) < 1e-15 * max(1.0, abs(float(o))) and q != 0 else None
+    except Exception:
+        return None
+    return None
 
 
 class AbsAng:
